@@ -495,7 +495,7 @@ fn intern_reuse_case(reader_low: bool) {
     std::mem::forget(zalsa);
 }
 
-// @verif prop=C07,C09,C01 obl=O6 tier=thorough bounds="STRETCH (hashbrown-backed): one stale LOW value (concrete data 7) in one shard, collector primed (REVS = 1) at a symbolic revision, symbolic stored generation < u32::MAX and revisions; a reader with NEVER_CHANGE stamp interns concrete data 9"
+// @verif prop=NONE obl=O6 tier=thorough bounds="PROBE, no verdict within 3 h (hashbrown-backed): one stale LOW value (concrete data 7) in one shard, collector primed (REVS = 1) at a symbolic revision, symbolic stored generation < u32::MAX and revisions; a reader with NEVER_CHANGE stamp interns concrete data 9"
 // @+ encodes="interned::IngredientImpl::<VInt<1>>::intern_id (reuse branch), IngredientImpl::insert_value, find_reusable_slot, hashbrown HashTable::find/reserve/find_entry/remove/insert_unique, report_tracked_read_if_reusable, IngredientImpl::clear_memos, intrusive LinkedList push_front/remove"
 /// C09-O5/C07-O6: reuse through the real `intern_id` by a durable (non-LOW) query: the slot gets generation + 1, the new
 /// data and the query's durability, and is **not** left in the LRU (so it can never be reclaimed).
@@ -507,7 +507,7 @@ fn c09_o5_intern_reuse_by_durable_query() {
     intern_reuse_case(false);
 }
 
-// @verif prop=C07,C09,C01 obl=O6 tier=thorough bounds="STRETCH (hashbrown- and indexmap-backed): as c09_o5_intern_reuse_by_durable_query with a reader whose stamp is (LOW, now)"
+// @verif prop=NONE obl=O6 tier=thorough bounds="PROBE, no verdict within 3 h (hashbrown- and indexmap-backed): as c09_o5_intern_reuse_by_durable_query with a reader whose stamp is (LOW, now)"
 // @+ encodes="interned::IngredientImpl::<VInt<1>>::intern_id (reuse branch), report_tracked_read_if_reusable, ZalsaLocal::report_tracked_read_simple, ActiveQuery::add_read_simple (FxIndexSet insert)"
 /// C07-O6: reuse by a LOW query: additionally the value stays reclaimable (in the LRU) and the interning query records a
 /// dependency edge on the *new* id, so that a later reclaim invalidates it.
